@@ -112,6 +112,21 @@ def call_closure(I, f, *args):
 
 # ------------------------------------------------------------------ Option / Result
 
+@reg('iter::once', 'once')
+def _iter_once(I, a, ci, dt):
+    return ListIter([a[0]])
+
+
+@reg('iter::empty', 'empty')
+def _iter_empty(I, a, ci, dt):
+    return ListIter([])
+
+
+@reg('iter::repeat_n', 'repeat_n')
+def _iter_repeat_n(I, a, ci, dt):
+    return ListIter([a[0]] * I.concretize(a[1]))
+
+
 @reg('anyhow::Ok')
 def _anyhow_ok(I, a, ci, dt):
     return Ok(a[0])
@@ -160,6 +175,11 @@ def _unwrap_or_default(I, a, ci, dt):
     v = a[0]
     if (v.name == 'Option' and v.v == 1) or (v.name == 'Result' and v.v == 0):
         return v.f[0]
+    if not (dt or '').strip():
+        # called as a function value (`.map(Option::unwrap_or_default)`): the type is in the path
+        m = re.search(r'(?:Option|Result)::<(.*)>::unwrap_or_default', ci.raw or '')
+        if m:
+            dt = m.group(1).split(',')[0].strip()
     return default_for(I, dt)
 
 
@@ -585,6 +605,10 @@ def compare_values(I, x, y):
     if isinstance(x, (SStr, SString)):
         return compare_bytes(I, x.b, y.b)
     if isinstance(x, Struct):
+        # a crate type with its own `impl Ord` is compared by that impl (Block: by start position)
+        f = I.prog.find_method(x.name, 'cmp', trait='Ord') if x.name not in ('tuple', 'closure') else None
+        if f is not None and not getattr(f, '_derived_ord', False):
+            return I.call_fn(f, [Ref(Cell(x), ()), Ref(Cell(y), ())])
         for p, q in zip(x.f, y.f):
             o = compare_values(I, p, q)
             if o.v != 1:
@@ -605,6 +629,8 @@ def compare_values(I, x, y):
                 return o
         lx, ly = len(x.items), len(y.items)
         return LESS() if lx < ly else (EQUAL() if lx == ly else GREATER())
+    if isinstance(x, MapVal) or isinstance(y, MapVal):
+        raise Unmodelled('ordering of maps')
     if I.branch(cmp_scalar('Lt', x, y)):
         return LESS()
     if I.branch(cmp_scalar('Eq', x, y)):
